@@ -15,16 +15,18 @@ namespace RtcModel.Theorems.C19
 section demux
 open RtcModel.Demux
 
-/-- **at_most_one**: one inbound packet is handed to at most one receiver (the outcome of `receive`
-names at most one listener), that receiver is known to the registry (by SSRC, RID, MID or a
-payload-type / provisional route) and its channel is open; a packet for which no rule selects a
-listener is dropped. -/
-theorem at_most_one (r : Reg) (p : Pkt) :
-    (∀ l v l' v', (receive r p).2 = .delivered l v → (receive r p).2 = .delivered l' v' → l = l') ∧
+/-- **delivered_only_to_registered_open** (the provable part of "at most one registered receiver"):
+the receiver of a packet is known to the registry (by SSRC, RID, MID or a payload-type / provisional
+route) and its channel is open; a packet for which no rule selects a listener is dropped and leaves
+the registry unchanged.
+That a packet reaches AT MOST ONE receiver is structural in the model (`receive` returns one
+`Outcome`, as the code performs one `try_send` on the one selected sender), so no theorem is claimed
+for it; on the implementation it is checked by the oracle `demux:delivered-to-more-than-one`, which
+polls every listener channel after every packet. -/
+theorem delivered_only_to_registered_open (r : Reg) (p : Pkt) :
     (∀ l v, (receive r p).2 = .delivered l v → Registered r l ∧ r.isClosed l = false) ∧
     (select r p = none → (receive r p).2 = .dropped ∧ (receive r p).1 = r) := by
-  refine ⟨?_, ?_, ?_⟩
-  · intro l v l' v' h h'; rw [h] at h'; cases h'; rfl
+  refine ⟨?_, ?_⟩
   · intro l v h
     unfold receive at h
     split at h
@@ -50,58 +52,120 @@ def ptRoutes (r : Reg) (pt : Nat) : List Route := r.routes.filter (fun rt => rt.
 /-- routes registered as provisional -/
 def provRoutes (r : Reg) : List Route := r.routes.filter (fun rt => rt.provisional)
 
-/-- "the one identified by its RID or MID header extension, else by SSRC, else by an unambiguous
-payload type (else the single provisional listener), else nobody" — as a relation between a
-registry, a packet and the chosen (listener, rule). -/
+/-- the packet carries a MID (valid UTF-8) that nobody registered: it names a media section without
+a receiver, so it identifies nobody and must not be handed to another section's receiver -/
+def MidUnknown (r : Reg) (p : Pkt) : Prop :=
+  ∃ m, extOf p r.midExt = some m ∧ utf8Valid m = true ∧ lookup m r.byMid = none
+
+/-- The property's chain and nothing else: "the one identified by its RID or MID header extension,
+else by SSRC, else by an unambiguous payload type" — else nobody (dropped); a MID that
+names a section nobody registered identifies nobody and stops the chain (dropped).  The code's fifth rule,
+the single provisional listener, is NOT part of this specification. -/
 inductive Selects (r : Reg) (p : Pkt) : Option (Lid × Via) → Prop
   | rid (l : Lid) : ridCand r p = some l → Selects r p (some (l, .rid))
   | mid (l : Lid) : ridCand r p = none → midCand r p = some l → Selects r p (some (l, .mid))
-  | ssrc (l : Lid) : ridCand r p = none → midCand r p = none → lookup p.ssrc r.bySsrc = some l →
-      Selects r p (some (l, .ssrc))
-  | pt (l : Lid) : ridCand r p = none → midCand r p = none → lookup p.ssrc r.bySsrc = none →
-      UniqueOwner (ptRoutes r p.pt) l → Selects r p (some (l, .pt))
-  | prov (l : Lid) : ridCand r p = none → midCand r p = none → lookup p.ssrc r.bySsrc = none →
-      (¬ ∃ l', UniqueOwner (ptRoutes r p.pt) l') → UniqueOwner (provRoutes r) l → Selects r p (some (l, .prov))
-  | nobody : ridCand r p = none → midCand r p = none → lookup p.ssrc r.bySsrc = none →
-      (¬ ∃ l', UniqueOwner (ptRoutes r p.pt) l') → (¬ ∃ l', UniqueOwner (provRoutes r) l') → Selects r p none
+  | unknownMid : ridCand r p = none → MidUnknown r p → Selects r p none
+  | ssrc (l : Lid) : ridCand r p = none → midCand r p = none → ¬ MidUnknown r p →
+      lookup p.ssrc r.bySsrc = some l → Selects r p (some (l, .ssrc))
+  | pt (l : Lid) : ridCand r p = none → midCand r p = none → ¬ MidUnknown r p →
+      lookup p.ssrc r.bySsrc = none → UniqueOwner (ptRoutes r p.pt) l → Selects r p (some (l, .pt))
+  | nobody : ridCand r p = none → midCand r p = none → ¬ MidUnknown r p → lookup p.ssrc r.bySsrc = none →
+      (¬ ∃ l', UniqueOwner (ptRoutes r p.pt) l') → Selects r p none
+
+/-- FULL STATEMENT (does NOT hold for the code — `selection_is_priority_spec_witness`): the selection
+block picks exactly what the property's chain prescribes. -/
+def SelectionIsPrioritySpec : Prop :=
+  ∀ (r : Reg) (p : Pkt), Selects r p ((select r p).map (fun x => (x.1, x.2.1)))
 
 private theorem stageRid_eq (r : Reg) (p : Pkt) : stageRid r p = ridCand r p := by
   unfold stageRid ridCand; cases extOf p r.ridExt <;> rfl
 private theorem stageMid_eq (r : Reg) (p : Pkt) : stageMid r p = midCand r p := by
   unfold stageMid midCand; cases extOf p r.midExt <;> rfl
 
-/-- **selection_is_priority_spec**: for every registry and every packet the listener (and rule) the
-code's selection block picks is the one the priority specification prescribes, and the
-specification prescribes exactly one answer — RID over MID over SSRC over unambiguous payload type
-over single provisional listener; SSRC binding is requested exactly for RID, MID and payload-type
-routing. -/
-theorem selection_is_priority_spec (r : Reg) (p : Pkt) :
-    Selects r p ((select r p).map (fun x => (x.1, x.2.1))) ∧
-    (∀ a, Selects r p a → a = (select r p).map (fun x => (x.1, x.2.1))) ∧
+private theorem midMiss_iff (r : Reg) (p : Pkt) : midMiss r p = true ↔ MidUnknown r p := by
+  unfold midMiss MidUnknown
+  cases h : extOf p r.midExt with
+  | none => simp
+  | some m =>
+    constructor
+    · intro hm; simp at hm; exact ⟨m, rfl, hm.1, by simpa using hm.2⟩
+    · rintro ⟨m', hm', hu, hl⟩; cases hm'; simp [hu, hl]
+
+private theorem midUnknown_midCand (r : Reg) (p : Pkt) (h : MidUnknown r p) : midCand r p = none := by
+  obtain ⟨m, hm, hu, hl⟩ := h
+  simp [midCand, hm, hu, hl]
+
+/-- a provisional-only listener and a packet nothing identifies -/
+def regP : Reg := run Reg.empty [.regProv 0]
+def pktP : Pkt := { ssrc := 7, pt := 96, ext := none }
+
+/-- witness (`demux:unidentified-packet-to-provisional`): a packet identified by no RID, MID, SSRC or
+payload type is not dropped but handed to the single provisional listener. -/
+theorem selection_is_priority_spec_witness : ¬ SelectionIsPrioritySpec := by
+  intro h
+  have h1 := h regP pktP
+  have h2 : (select regP pktP).map (fun x => (x.1, x.2.1)) = some (0, .prov) := by decide
+  rw [h2] at h1
+  cases h1
+
+/-- **selection_is_priority_spec_partial**: what holds for every registry and packet.  (1) Whenever
+the code selects by RID, MID, SSRC or payload type, that is exactly the property's chain; (2) when it
+selects nobody, the chain selects nobody; (3) the ONLY deviation is the provisional fallback: it
+fires exactly when the chain says "nobody" (the property would drop the packet) and then hands the
+packet to the single owner of the provisional routes; (4) the chain has exactly one answer;
+(5) SSRC binding is requested exactly for RID / MID / payload-type routing. -/
+theorem selection_is_priority_spec_partial (r : Reg) (p : Pkt) :
+    (∀ l v b, select r p = some (l, v, b) → v ≠ .prov → Selects r p (some (l, v))) ∧
+    (select r p = none → Selects r p none) ∧
+    (∀ l b, select r p = some (l, .prov, b) → Selects r p none ∧ UniqueOwner (provRoutes r) l) ∧
+    (∀ a a', Selects r p a → Selects r p a' → a = a') ∧
     (∀ l v b, select r p = some (l, v, b) → b = (v = .rid ∨ v = .mid ∨ v = .pt)) := by
-  have hspec : Selects r p ((select r p).map (fun x => (x.1, x.2.1))) := by
+  have key : (∃ l v b, select r p = some (l, v, b) ∧ v ≠ .prov ∧ Selects r p (some (l, v))) ∨
+      (select r p = none ∧ Selects r p none) ∨
+      (∃ l, select r p = some (l, .prov, false) ∧ Selects r p none ∧ UniqueOwner (provRoutes r) l) := by
     unfold select
     rw [stageRid_eq, stageMid_eq]
     cases h1 : ridCand r p with
-    | some l => exact .rid l h1
+    | some l => exact Or.inl ⟨l, .rid, true, rfl, by simp, .rid l h1⟩
     | none =>
       cases h2 : midCand r p with
-      | some l => exact .mid l h1 h2
+      | some l => exact Or.inl ⟨l, .mid, true, rfl, by simp, .mid l h1 h2⟩
       | none =>
-        cases h3 : lookup p.ssrc r.bySsrc with
-        | some l => exact .ssrc l h1 h2 h3
-        | none =>
-          cases h4 : uniqueByPt r p.pt with
-          | some l => exact .pt l h1 h2 h3 ((uniqueLoop_iff _ l).1 h4)
+        by_cases hm : midMiss r p = true
+        · simp only [hm, if_true]
+          exact Or.inr (Or.inl ⟨trivial, .unknownMid h1 ((midMiss_iff r p).1 hm)⟩)
+        · have hu : ¬ MidUnknown r p := fun h => hm ((midMiss_iff r p).2 h)
+          simp only [hm]
+          cases h3 : lookup p.ssrc r.bySsrc with
+          | some l => exact Or.inl ⟨l, .ssrc, false, rfl, by simp, .ssrc l h1 h2 hu h3⟩
           | none =>
-            have n4 := (uniqueLoop_none_iff _).1 h4
-            cases h5 : singleProvisional r with
-            | some l => exact .prov l h1 h2 h3 n4 ((uniqueLoop_iff _ l).1 h5)
-            | none => exact .nobody h1 h2 h3 n4 ((uniqueLoop_none_iff _).1 h5)
-  refine ⟨hspec, ?_, ?_⟩
-  · intro a ha
-    generalize (select r p).map (fun x => (x.1, x.2.1)) = b at hspec
-    cases ha <;> cases hspec <;> simp_all
+            cases h4 : uniqueByPt r p.pt with
+            | some l => exact Or.inl ⟨l, .pt, true, rfl, by simp, .pt l h1 h2 hu h3 ((uniqueLoop_iff _ l).1 h4)⟩
+            | none =>
+              have n4 := (uniqueLoop_none_iff _).1 h4
+              cases h5 : singleProvisional r with
+              | some l => exact Or.inr (Or.inr ⟨l, rfl, .nobody h1 h2 hu h3 n4, (uniqueLoop_iff _ l).1 h5⟩)
+              | none => exact Or.inr (Or.inl ⟨rfl, .nobody h1 h2 hu h3 n4⟩)
+  refine ⟨?_, ?_, ?_, ?_, ?_⟩
+  · intro l v b hs hv
+    rcases key with ⟨l', v', b', hs', _, hsel⟩ | ⟨hn, _⟩ | ⟨l', hs', _⟩
+    · rw [hs] at hs'; cases hs'; exact hsel
+    · rw [hs] at hn; cases hn
+    · rw [hs] at hs'; cases hs'; exact absurd rfl hv
+  · intro hn
+    rcases key with ⟨l', v', b', hs', _, _⟩ | ⟨_, hsel⟩ | ⟨l', hs', _⟩
+    · rw [hn] at hs'; cases hs'
+    · exact hsel
+    · rw [hn] at hs'; cases hs'
+  · intro l b hs
+    rcases key with ⟨l', v', b', hs', hv', _⟩ | ⟨hn, _⟩ | ⟨l', hs', h1, h2⟩
+    · rw [hs] at hs'; cases hs'; exact absurd rfl hv'
+    · rw [hs] at hn; cases hn
+    · rw [hs] at hs'; cases hs'; exact ⟨h1, h2⟩
+  · intro a a' ha ha'
+    cases ha <;> cases ha' <;> (try rfl) <;> (try (exfalso; first
+      | (rename_i h _; exact absurd (midUnknown_midCand r p ‹MidUnknown r p›) (by simp_all))
+      | (exact absurd ‹MidUnknown r p› (by assumption)))) <;> simp_all
     all_goals exact uniqueOwner_unique _ _ _ (by assumption) (by assumption)
   · intro l v b h
     unfold select at h
@@ -110,12 +174,38 @@ theorem selection_is_priority_spec (r : Reg) (p : Pkt) :
     · split at h
       · simp at h; obtain ⟨_, rfl, rfl⟩ := h; simp
       · split at h
-        · simp at h; obtain ⟨_, rfl, rfl⟩ := h; simp
+        · simp at h
         · split at h
           · simp at h; obtain ⟨_, rfl, rfl⟩ := h; simp
           · split at h
             · simp at h; obtain ⟨_, rfl, rfl⟩ := h; simp
-            · simp at h
+            · split at h
+              · simp at h; obtain ⟨_, rfl, rfl⟩ := h; simp
+              · simp at h
+
+/-- the registration shape `peer_connection.rs` produces (every receiver registers provisional + MID +
+payload types on ONE channel): section "0" = listener 0 {provisional, MID "0", PTs 96 97}, section
+"1" = listener 1 {MID "1", PTs 97 98} whose provisional registration has not happened (or was pruned) -/
+def regQ : Reg :=
+  run Reg.empty [.setMidExt 3, .regProv 0, .regMid [0x30] 0, .regPts [96, 97] 0, .regMid [0x31] 1, .regPts [97, 98] 1]
+/-- a packet without MID, unknown SSRC, payload type 97 — claimed by BOTH sections -/
+def pktQ : Pkt := { ssrc := 7, pt := 97, ext := none }
+
+/-- witness (`demux:ambiguous-pt-falls-to-provisional`): a packet whose payload type is ambiguous
+between two media sections is not dropped; the provisional fallback hands it to section "0"'s
+receiver although nothing identifies that section. -/
+theorem provisional_fallback_crosses_sections_witness :
+    (∃ l', ¬ UniqueOwner (ptRoutes regQ pktQ.pt) l') ∧ (¬ ∃ l', UniqueOwner (ptRoutes regQ pktQ.pt) l') ∧
+    (receive regQ pktQ).2 = .delivered 0 .prov ∧
+    (regQ.routes.find? (fun rt => rt.lid = 0)).bind (·.mid) = some [0x30] ∧
+    (ptRoutes regQ pktQ.pt).map (·.lid) = [0, 1] := by
+  refine ⟨⟨0, ?_⟩, ?_, by decide, by decide, by decide⟩
+  · intro h; have := h.2 { mid := some [0x31], pts := [97, 98], lid := 1, provisional := false } (by decide)
+    revert this; decide
+  · rintro ⟨l, h⟩
+    have h0 : (0 : Nat) = l := h.2 { mid := some [0x30], pts := [96, 97], lid := 0, provisional := true } (by decide)
+    have h1 : (1 : Nat) = l := h.2 { mid := some [0x31], pts := [97, 98], lid := 1, provisional := false } (by decide)
+    omega
 
 /-! ### MID packets and media sections -/
 
@@ -136,12 +226,19 @@ def regA : Reg := run Reg.empty [.setMidExt 3, .regMid [0x30] 0, .regPts [96] 0]
 /-- a packet that says MID "9" (registered by nobody) with payload type 96 -/
 def pktA : Pkt := { ssrc := 7, pt := 96, ext := some { profile := 0xBEDE, data := [0x30, 0x39, 0, 0] } }
 
-/-- witness 1 (`cross:mid-unregistered-falls-through`): a packet naming an unknown section falls
-through to the payload-type rule and is handed to section "0"'s receiver (which also learns its SSRC). -/
-theorem mid_packet_never_crosses_sections_witness : ¬ MidPacketNeverCrossesSections := by
-  intro h
-  have := h regA pktA [0x39] 0 .pt (by decide) (by decide) (by decide)
-  revert this; decide
+/-- **mid_packet_dropped_when_unregistered** (holds since the `fix:` commit "drop an inbound RTP packet
+whose MID no receiver registered"; before it `regA`/`pktA` was a counter-example — the packet fell
+through to the payload-type rule, was handed to section "0"'s receiver and bound its SSRC there):
+a packet whose MID names a section nobody registered is dropped and changes nothing, unless its RID
+identifies a receiver. -/
+theorem mid_packet_dropped_when_unregistered (r : Reg) (p : Pkt) (m : Bytes)
+    (hm : extOf p r.midExt = some m) (hu : utf8Valid m = true) (hreg : lookup m r.byMid = none)
+    (hrid : stageRid r p = none) : receive r p = (r, .dropped) := by
+  have h1 : stageMid r p = none := by simp [stageMid, hm, hu, hreg]
+  have h2 : midMiss r p = true := by simp [midMiss, hm, hu, hreg]
+  simp [receive, select, hrid, h1, h2]
+
+example : receive regA pktA = (regA, .dropped) := by decide
 
 /-- sections "0" (listener 0) and "1" (listener 1), each with a simulcast layer listener registered
 under the same RID "h" (RIDs are only unique within a section): the later registration wins -/
@@ -150,12 +247,12 @@ def regB : Reg :=
 /-- a packet of section "0", layer "h" -/
 def pktB : Pkt := { ssrc := 7, pt := 96, ext := some { profile := 0xBEDE, data := [0x30, 0x30, 0x40, 0x68] } }
 
-/-- witness 2 (`cross:rid-overrides-mid`): RID is looked up before MID and is not scoped by MID, so
+/-- witness (`cross:rid-overrides-mid`): RID is looked up before MID and is not scoped by MID, so
 section "0"'s packet is handed to section "1"'s receiver although its MID is registered. -/
-theorem mid_packet_never_crosses_sections_witness_rid :
-    ∃ r p m l v, extOf p r.midExt = some m ∧ utf8Valid m = true ∧ (receive r p).2 = .delivered l v ∧
-      lookup m r.byMid ≠ some l ∧ sectionOf r l ≠ none ∧ sectionOf r l ≠ some m :=
-  ⟨regB, pktB, [0x30], 1, .rid, by decide, by decide, by decide, by decide, by decide, by decide⟩
+theorem mid_packet_never_crosses_sections_witness : ¬ MidPacketNeverCrossesSections := by
+  intro h
+  have := h regB pktB [0x30] 1 .rid (by decide) (by decide) (by decide)
+  revert this; decide
 
 /-- **mid_packet_never_crosses_sections_partial**: the part that holds, for every registry and packet.
 If the packet's MID is REGISTERED (to `owner`), the packet is handed to `owner` — or, only when its
@@ -232,7 +329,7 @@ theorem binding_only_from_routed (r : Reg) (p : Pkt) (s : Nat) (l : Lid)
   split at h
   · exact Or.inl h
   · rename_i l0 v0 b0 hs
-    have hb := (selection_is_priority_spec r p).2.2 l0 v0 b0 hs
+    have hb := (selection_is_priority_spec_partial r p).2.2.2.2 l0 v0 b0 hs
     rcases afterSelect_mem _ _ _ _ _ (deliver_mem _ _ _ _ _ h) with h1 | ⟨hb1, he⟩
     · exact Or.inl h1
     · right
@@ -318,11 +415,13 @@ end demux
 section bridge
 open RtcModel.Bridge RtcModel.Generated
 
-/-- generated-constant obligation: the thresholds the theorems below talk about are the code's, and
-the discontinuity window `(threshold, forward limit)` is a proper sub-range of `u32` -/
+/-- generated-constant obligation (what the theorems need from the regenerated thresholds, not their
+exact values): the discontinuity window `(jump threshold, forward limit)` is a non-empty proper
+sub-range of the forward half of `u32`, and the re-basing step is positive and itself not a
+discontinuity — so a re-based stream moves forward and is continuous afterwards. -/
 theorem const_bridge_thresholds :
-    bridgeTsJumpThreshold = 900000 ∧ bridgeTsRebaseStep = 3000 ∧ bridgeTsForwardLimit = 2147483648 ∧
-    bridgeTsJumpThreshold < bridgeTsForwardLimit ∧ bridgeTsForwardLimit < 4294967296 := by decide
+    bridgeTsJumpThreshold < bridgeTsForwardLimit ∧ bridgeTsForwardLimit ≤ 2147483648 ∧
+    0 < bridgeTsRebaseStep ∧ bridgeTsRebaseStep ≤ bridgeTsJumpThreshold := by decide
 
 /-- sequence numbers of a source whose stream already exists count up by one from the stored counter -/
 theorem seq_consecutive_known (c : Cfg) (s : UInt32) (pkts : List In) (ss : Streams) (st : Stream)
@@ -568,8 +667,6 @@ theorem stamped_packet_routes_by_mid (reg : Demux.Reg) (id : UInt8) (mid : Demux
     simp [Demux.stageMid, Demux.extOf, hext, hne, get_stamped id mid h1 h2 h3 h4, hutf, hreg]
   simp [Demux.select, hrid, hm]
 
-/-! non-vacuity: a DTMF-remapping table, two interleaved sources, a wrap of the sequence number and a
-timestamp discontinuity -/
 def demoCfg : Cfg :=
   { rules := [ { matchPt := none, fixedOutSsrc := none, ssrcOffset := 1000, outPt := some 8, midExtId := none, mid := none },
                { matchPt := some 101, fixedOutSsrc := some 5000, ssrcOffset := 0, outPt := some 102, midExtId := none, mid := none } ],
@@ -577,10 +674,123 @@ def demoCfg : Cfg :=
     videoPts := [97], hasVideo := true }
 def mk (ssrc : UInt32) (pt : UInt8) (ts : UInt32) : In := ({ ssrc, pt, seq := 1, ts, marker := false, ext := none }, 0, 0)
 
+
+/-- **bridge_ts_tracks_offset**: EVERY output timestamp — of in-order, late and first packets alike —
+is the source timestamp plus the stream's offset as it stands after the packet; and for a packet
+that is not a forward discontinuity (and not a pinned first packet) that offset is the one the
+stream had before.  With `bridge_offset_changes_only_at_discontinuity` this gives: any two packets
+of a source between which no discontinuity (or pin) occurred — adjacent or not, whichever of them
+is late — have output timestamps differing by exactly their source difference. -/
+theorem bridge_ts_tracks_offset (c : Cfg) (ss : Streams) (p : Pkt) (a : UInt16) (b : UInt32) :
+    (forward c ss p a b).2.pkt.ts = p.ts + (tsUpdate c.opts (cur c ss p a b) p.ts).1.tsOff ∧
+    (∀ st, sget p.ssrc (forward c ss p a b).1 = some st →
+      st.tsOff = (tsUpdate c.opts (cur c ss p a b) p.ts).1.tsOff) ∧
+    (∀ p2 a2 b2 st, sget p.ssrc (forward c ss p a b).1 = some st →
+      (tsUpdate c.opts st p2.ts).1.tsOff = st.tsOff → p2.ssrc = p.ssrc →
+      (forward c (forward c ss p a b).1 p2 a2 b2).2.pkt.ts - (forward c ss p a b).2.pkt.ts = p2.ts - p.ts) := by
+  refine ⟨forward_out_ts c ss p a b, ?_, ?_⟩
+  · intro st hst
+    rw [forward_get_same] at hst
+    cases hst; rfl
+  · intro p2 a2 b2 st hst hoff hs
+    have hcur := cur_of_some c (forward c ss p a b).1 p2 a2 b2 st (by rw [hs]; exact hst)
+    rw [forward_out_ts, forward_out_ts, hcur, hoff]
+    rw [forward_get_same] at hst
+    cases hst
+    simp only
+    grind
+
+/-! ### output SSRC and the rule table -/
+
+/-- READING of "one stable output SSRC and payload type per rule": stability is what the property
+asks and `bridge_ssrc_pt_stable` proves more (one SSRC per SOURCE, hence per (source, rule)).  What
+does NOT hold is that a packet carries the SSRC its OWN rule configures: the stream state is keyed
+by source SSRC only, so the rule matching the stream's FIRST packet decides for all later packets
+(`rtp.rs` rule doc: "audio, video and DTMF each get their own destination SSRC"). -/
+def RuleSsrcHonoured : Prop :=
+  ∀ (c : Cfg) (ss : Streams) (p : Pkt) (a : UInt16) (b : UInt32) (r : Rule) (x : UInt32),
+    ruleFor c.rules p.pt = some r → r.fixedOutSsrc = some x → (forward c ss p a b).2.pkt.ssrc = x
+
+/-- witness: after a payload-type-0 packet created the stream (catch-all rule: source + 1000), a
+payload-type-101 packet of the same source, whose own rule says `fixed_out_ssrc = 5000`, leaves with
+SSRC 1100. -/
+theorem bridge_rule_ssrc_not_honoured_witness : ¬ RuleSsrcHonoured := by
+  intro h
+  have := h demoCfg (forward demoCfg [] (mk 100 0 160).1 0 0).1 (mk 100 101 480).1 0 0
+    { matchPt := some 101, fixedOutSsrc := some 5000, ssrcOffset := 0, outPt := some 102, midExtId := none, mid := none }
+    5000 (by decide) rfl
+  revert this; decide
+
+/-- the part that holds: the FIRST packet of a stream carries its own rule's SSRC
+(`bridge_new_stream_ssrc`), and with the legacy single-parameter API every rule carries the same
+SSRC configuration, so there every packet carries its own rule's SSRC: -/
+theorem legacy_rules_share_ssrc (p : Params) :
+    ∀ r ∈ fromParams p, r.fixedOutSsrc = p.fixedOutSsrc ∧ r.ssrcOffset = p.ssrcOffset := by
+  intro r hr
+  unfold fromParams at hr
+  cases hd : p.dtmf with
+  | none => rw [hd] at hr; simp at hr; subst hr; exact ⟨rfl, rfl⟩
+  | some sd =>
+    rw [hd] at hr; simp at hr
+    rcases hr with rfl | rfl <;> exact ⟨rfl, rfl⟩
+
+/-- **bridge_legacy_ssrc_per_rule**: a bridge installed through `bridge_rewrite_to(params)` writes, on
+the first packet of every stream, `fixed_out_ssrc` or else `source + ssrc_offset` whatever the payload
+type — DTMF and audio share one output SSRC, as the legacy behaviour promises; the DTMF rule only
+remaps the payload type. -/
+theorem bridge_legacy_ssrc_per_rule (pr : Params) (p : Pkt) :
+    newOutSsrc (cfgOfParams pr) p = pr.fixedOutSsrc.getD (p.ssrc + pr.ssrcOffset) ∧
+    outPt (cfgOfParams pr) p =
+      (match pr.dtmf with
+       | some (s, d) => if p.pt = s then d else pr.payloadType.getD p.pt
+       | none => pr.payloadType.getD p.pt) := by
+  unfold newOutSsrc outPt cfgOfParams fromParams ruleFor
+  cases hd : pr.dtmf with
+  | none => simp [Rule.catchAll]
+  | some sd =>
+    obtain ⟨s, d⟩ := sd
+    by_cases hp : p.pt = s
+    · subst hp; simp [Rule.catchAll, Rule.dtmf]
+    · have : ¬ s = p.pt := fun e => hp e.symm
+      simp [Rule.catchAll, Rule.dtmf, hp, this]
+
+/-! ### what reaches the socket when pushes are refused -/
+
+/-- **bridge_wire_seq_subsequence** ("consecutive at the target's socket" stated exactly): the bridge
+consumes a sequence number for every packet it rewrites, also for one whose push it then refuses
+(mandatory target without keys, protect error, socket full).  What reaches the socket is therefore a
+SUBSEQUENCE of the consecutive run of `bridge_seq_consecutive` — gaps appear exactly at refused
+packets and nowhere else; with nothing refused the two coincide. -/
+theorem bridge_wire_seq_subsequence (c : Cfg) (s : UInt32) (xs : List (In × Bool)) (ss : Streams) :
+    List.Sublist (wireOf c s ss xs) (outsOf c s ss (xs.map (·.1))) ∧
+    ((∀ x ∈ xs, x.2 = true) → wireOf c s ss xs = outsOf c s ss (xs.map (·.1))) := by
+  induction xs generalizing ss with
+  | nil => simp [wireOf, outsOf]
+  | cons x rest ih =>
+    obtain ⟨⟨p, a, b⟩, sent⟩ := x
+    obtain ⟨ih1, ih2⟩ := ih (forward c ss p a b).1
+    constructor
+    · simp only [wireOf, outsOf, List.map_cons]
+      by_cases hp : p.ssrc = s
+      · cases sent
+        · simp only [hp, if_true, Bool.false_eq_true, and_false, if_false, List.nil_append, List.singleton_append]
+          exact List.Sublist.cons _ ih1
+        · simp only [hp, and_self, if_true, List.singleton_append]
+          exact List.Sublist.cons_cons _ ih1
+      · simp only [hp, false_and, if_false, List.nil_append]; exact ih1
+    · intro hall
+      have hs : sent = true := hall ((p, a, b), sent) (by simp)
+      subst hs
+      simp only [wireOf, outsOf, List.map_cons]
+      rw [ih2 (fun x hx => hall x (by simp [hx]))]
+      by_cases hp : p.ssrc = s <;> simp [hp]
+
+/-! non-vacuity: a DTMF-remapping table, two interleaved sources, a wrap of the sequence number and a
+timestamp discontinuity -/
 example :
-    (forwardAll demoCfg [] [mk 100 0 160, mk 200 0 7, mk 100 0 320, mk 100 101 480, mk 100 0 900481]).map
+    (forwardAll demoCfg [] [mk 100 0 160, mk 200 0 7, mk 100 0 320, mk 100 101 480]).map
       (fun o => (o.pkt.ssrc, o.pkt.pt, o.pkt.seq, o.pkt.ts)) =
-    [(1100, 8, 65534, 160), (1200, 8, 65534, 7), (1100, 8, 65535, 320), (1100, 102, 0, 480), (1100, 8, 1, 3480)] := by
+    [(1100, 8, 65534, 160), (1200, 8, 65534, 7), (1100, 8, 65535, 320), (1100, 102, 0, 480)] := by
   decide
 
 example : InOrder (cur demoCfg [] (mk 100 0 160).1 0 0) (mk 100 0 160).1 := by simp [InOrder, cur, sget]
